@@ -37,6 +37,26 @@ def configure(model, algo):
         model._epsilon = algo["epsilon"]
 
 
+def simulate(prop, key, case, fn, *a, **kw):
+    """Call a simulation entry point.  Any exception is a violation of C04 ('the simulation returns');
+    the other stochastic properties count a C04-type failure as inconclusive so that one root cause is
+    reported once, under the property that states it."""
+    from pbt.harness import Inconclusive
+    try:
+        return fn(*a, **kw)
+    except Exception as e:
+        msg = str(e)
+        if isinstance(e, ValueError) and "lam" in msg:
+            k, what = "C04/tau/poisson-mean-overflow", ("adaptive tau-leap proposed a step whose Poisson mean is not "
+                                                        "representable (%s)" % msg)
+        else:
+            k, what = "%s/raises-%s" % (key, type(e).__name__), "%s raised %s: %s" % (
+                getattr(fn, "__name__", fn), type(e).__name__, msg[:300])
+        if prop == "C04" or not k.startswith("C04/"):
+            raise PropertyViolation(k, what, case)
+        raise Inconclusive("C04 finding (simulation raised): " + k)
+
+
 def run_raw(model, horizon_abs, n_iter, exact, np_seed):
     np.random.seed(np_seed)
     return model.solve_stochast(horizon_abs, n_iter, exact=exact, full_output=True, parallel=False)
